@@ -1,5 +1,6 @@
 import OpacusLean.Lemmas.RnnTranspose
 import OpacusLean.Lemmas.RnnCsl2
+import OpacusLean.Lemmas.RnnPack
 import OpacusLean.Lemmas.RnnNames
 import OpacusLean.Lemmas.RnnCellEq
 set_option linter.unusedSimpArgs false
@@ -17,6 +18,10 @@ cell, arbitrary feature / state types, unbounded `T`, `B`, number of layers.
 namespace Opacus.C13
 open Opacus.Rnn
 variable {X V S : Type}
+
+/-- a toy instance over ℕ: `cell x s = x + 2·s`, outputs concatenated by addition -/
+def toyCfg : Cfg Nat Nat := ⟨id, (· + ·), 0⟩
+def toyCell (k : Nat) : Nat → Nat → Nat := fun x s => x + k * s
 
 /-! ## one direction of one layer -/
 
@@ -43,14 +48,16 @@ theorem packed_reverse_dir_refines_spec (cell : X → S → S) (h0 : List S) (xs
     (packed_grow_scan cell h0 xs.reverse [] hpx hb' (by simp)).2 i s (by simpa [virt] using hs), seqOf_reverse]
 
 /-- `forward_layer(is_packed=True)`, both directions, including `h_last` gathered through
-`compute_seq_lengths`: outputs and last state of every row are those of the per-sequence spec -/
-theorem packed_layer_refines_spec (B : Nat) (rest : List Nat) (hp : (B :: rest).Pairwise (· ≥ ·))
+`compute_seq_lengths`: outputs and last state of every row are those of the per-sequence spec
+(the last state after the conversion `cast` into the `h_last` buffer, see `gatherLast`) -/
+theorem packed_layer_refines_spec (cast : S → S) (B : Nat) (rest : List Nat) (hp : (B :: rest).Pairwise (· ≥ ·))
     (cell : X → S → S) (h0 : List S) (x : List (List X)) (rev : Bool)
     (h0len : h0.length = B) (hx : x.map List.length = B :: rest) :
-    ∃ o last, layerPacked B cell h0 x rev = some (o, last) ∧ o.map List.length = B :: rest ∧
+    ∃ o last, layerPacked cast B cell h0 x rev = some (o, last) ∧ o.map List.length = B :: rest ∧
       last.length = B ∧ ∀ i s, h0[i]? = some s →
-        seqOf o i = (specDir cell s (seqOf x i) rev).1 ∧ last[i]? = some (specDir cell s (seqOf x i) rev).2 :=
-  layerPacked_refines B rest hp cell h0 x rev h0len hx
+        seqOf o i = (specDir cell s (seqOf x i) rev).1 ∧
+        last[i]? = some (cast (specDir cell s (seqOf x i) rev).2) :=
+  layerPacked_refines cast B rest hp cell h0 x rev h0len hx
 
 /-- `forward_layer(is_packed=False)`, both directions (outputs flipped back, states not) -/
 theorem padded_layer_refines_spec (B T' : Nat)
@@ -63,13 +70,14 @@ theorem padded_layer_refines_spec (B T' : Nat)
 
 /-! ## the whole `forward` -/
 
-/-- **packed_refines_spec**.  `forward` on a well-formed `PackedSequence` (batch sizes non-increasing,
+/-- **packed_refines_spec_partial** (the code as it stands, for any conversion `cast` into the `h_last`
+buffer).  `forward` on a well-formed `PackedSequence` (batch sizes non-increasing,
 `data` of matching length, `sorted/unsorted_indices` both `None` or mutually inverse permutations),
 `L ≥ 1` layers, uni- or bidirectional, initial state absent or of shape `[L·P, B, ·]`: the call
 succeeds; the output data split by `batch_sizes` holds, for the user's sequence `j` (packed at
 position `i`), the spec outputs of that sequence, and row `j` of `h_n` (and `c_n`) is the spec's
-final states – where the spec is fed the user's own initial-state rows `init[·][j]`. -/
-theorem packed_refines_spec (cfg : Cfg V S) (bidir : Bool) (L : Nat) (hLpos : 0 < L)
+final states *converted by `cast`* – where the spec is fed the user's own initial-state rows `init[·][j]`. -/
+theorem packed_refines_spec_partial (cfg : Cfg V S) (cast : S → S) (bidir : Bool) (L : Nat) (hLpos : 0 < L)
     (cells : List (V → S → S)) (hcells : (if bidir then 2 else 1) * L ≤ cells.length)
     (data : List V) (B : Nat) (rest : List Nat) (hp : (B :: rest).Pairwise (· ≥ ·))
     (hdata : data.length = (B :: rest).sum)
@@ -77,18 +85,18 @@ theorem packed_refines_spec (cfg : Cfg V S) (bidir : Bool) (L : Nat) (hLpos : 0 
     (init : Option (List (List S)))
     (hinit : ∀ h0s, init = some h0s →
       h0s.length = (if bidir then 2 else 1) * L ∧ ∀ h ∈ h0s, h.length = B) :
-    ∃ out hn x o, forwardPacked cfg bidir L cells data (B :: rest) sIdx uIdx init = some (out, hn) ∧
+    ∃ out hn x o, forwardPacked cfg cast bidir L cells data (B :: rest) sIdx uIdx init = some (out, hn) ∧
       splitBy data (B :: rest) = some x ∧ splitBy out (B :: rest) = some o ∧
       hn.length = (if bidir then 2 else 1) * L ∧ (∀ h ∈ hn, h.length = B) ∧
       ∀ j i s0, j < B → posOf uIdx j i → InitRow init j s0 →
-        ∃ so sf, specForward cfg bidir L cells s0 (seqOf x i) = some (so, sf) ∧
+        ∃ so sf, specForward cfg cast bidir L cells s0 (seqOf x i) = some (so, sf) ∧
           seqOf o i = so ∧ RowOf hn j sf := by
   obtain ⟨x, hx⟩ := splitBy_exists (B :: rest) data hdata
   obtain ⟨hxsh, _⟩ := splitBy_shape _ _ _ hx
   obtain ⟨h0s, hh0, hh0len, hh0B, hh0row⟩ :=
     initStates_ok cfg L (if bidir then 2 else 1) B sIdx uIdx hperm init hinit
   obtain ⟨o, hs, hloop, hosh, hslen, hsB, hspec⟩ :=
-    layersLoop_refines cfg (layerPacked B) B (B :: rest) (layerPacked_refines B rest hp) bidir cells h0s hh0B
+    layersLoop_refines cfg cast (layerPacked cast B) B (B :: rest) (layerPacked_refines cast B rest hp) bidir cells h0s hh0B
       L 0 x [] hxsh (by simpa using hcells) (by simp [hh0len])
   obtain ⟨hn, hfin, hnlen, hnB, hnrow⟩ := finalPerm_ok sIdx uIdx hperm hs (hsB (by simp))
   refine ⟨o.flatten, hn, x, o, ?_, hx, ?_, ?_, hnB, ?_⟩
@@ -100,6 +108,76 @@ theorem packed_refines_spec (cfg : Cfg V S) (bidir : Bool) (L : Nat) (hLpos : 0 
     obtain ⟨so, sf, hsl, hso, hsf⟩ := hspec i _ [] (hh0row j i s0 hj hpos hrow) (by simp [RowOf])
     exact ⟨so, sf, by simpa [specForward] using hsl, hso, hnrow j i sf hpos hsf⟩
 
+
+
+/-- **packed_refines_spec** (repaired behaviour: the `h_last` buffer has the states' dtype, `cast = id`;
+also what the code as it stands does whenever the default dtype equals the input's): `h_n`, `c_n` are
+exactly the spec's final states. -/
+theorem packed_refines_spec (cfg : Cfg V S) (bidir : Bool) (L : Nat) (hLpos : 0 < L)
+    (cells : List (V → S → S)) (hcells : (if bidir then 2 else 1) * L ≤ cells.length)
+    (data : List V) (B : Nat) (rest : List Nat) (hp : (B :: rest).Pairwise (· ≥ ·))
+    (hdata : data.length = (B :: rest).sum)
+    (sIdx uIdx : Option (List Nat)) (hperm : PermOK B sIdx uIdx)
+    (init : Option (List (List S)))
+    (hinit : ∀ h0s, init = some h0s →
+      h0s.length = (if bidir then 2 else 1) * L ∧ ∀ h ∈ h0s, h.length = B) :
+    ∃ out hn x o, forwardPacked cfg id bidir L cells data (B :: rest) sIdx uIdx init = some (out, hn) ∧
+      splitBy data (B :: rest) = some x ∧ splitBy out (B :: rest) = some o ∧
+      hn.length = (if bidir then 2 else 1) * L ∧ (∀ h ∈ hn, h.length = B) ∧
+      ∀ j i s0, j < B → posOf uIdx j i → InitRow init j s0 →
+        ∃ so sf, specForward cfg id bidir L cells s0 (seqOf x i) = some (so, sf) ∧
+          seqOf o i = so ∧ RowOf hn j sf :=
+  packed_refines_spec_partial cfg id bidir L hLpos cells hcells data B rest hp hdata sIdx uIdx hperm init hinit
+
+/-- **packed_state_dtype_counterexample** (known finding `C13:packed:state-dtype`): with a lossy
+conversion into the `h_last` buffer – here `cast x = 2·⌊x/2⌋` on ℕ standing in for float64 → float32 –
+the packed path returns final states that differ from the spec's (`[[6, 10]]` vs `[[7, 10]]`), while the
+outputs and the padded path are unaffected. -/
+theorem packed_state_dtype_counterexample :
+    forwardPacked toyCfg (fun x => x / 2 * 2) false 1 [toyCell 2] [1, 2, 5, 6] [2, 2] none none none
+      = some ([1, 2, 7, 10], [[6, 10]]) ∧
+    forwardPacked toyCfg id false 1 [toyCell 2] [1, 2, 5, 6] [2, 2] none none none
+      = some ([1, 2, 7, 10], [[7, 10]]) ∧
+    forwardPadded toyCfg false 1 [toyCell 2] false [[1, 2], [5, 6]] none
+      = some ([[1, 2], [7, 10]], [[7, 10]]) := by decide
+
+/-- the same, stated on the user's sequences: pack non-empty sequences ordered by decreasing length
+(`pack_padded_sequence(enforce_sorted=True)`), run the DP layer, unpack – every sequence got its own
+recurrence.  (Unsorted input is `packed_refines_spec` with the two index permutations.) -/
+theorem packed_sequences_refine_spec (cfg : Cfg V S) (bidir : Bool) (L : Nat) (hLpos : 0 < L)
+    (cells : List (V → S → S)) (hcells : (if bidir then 2 else 1) * L ≤ cells.length)
+    (seqs : List (List V)) (hne : seqs ≠ []) (hsorted : (seqs.map List.length).Pairwise (· ≥ ·))
+    (hpos : ∀ s ∈ seqs, s ≠ [])
+    (init : Option (List (List S)))
+    (hinit : ∀ h0s, init = some h0s →
+      h0s.length = (if bidir then 2 else 1) * L ∧ ∀ h ∈ h0s, h.length = seqs.length) :
+    ∃ out hn o,
+      forwardPacked cfg id bidir L cells (packSteps seqs).flatten (batchSizes (seqs.map List.length))
+        none none init = some (out, hn) ∧
+      splitBy out (batchSizes (seqs.map List.length)) = some o ∧
+      ∀ j s s0, seqs[j]? = some s → InitRow init j s0 →
+        ∃ so sf, specForward cfg id bidir L cells s0 s = some (so, sf) ∧ seqOf o j = so ∧ RowOf hn j sf := by
+  obtain ⟨rest, hform, hpw⟩ := batchSizes_form (lens := seqs.map List.length) (by simpa using hne) hsorted
+    (by intro l hl; obtain ⟨s, hs, rfl⟩ := List.mem_map.mp hl
+        exact List.length_pos_iff.mpr (hpos s hs))
+  simp only [List.length_map] at hform hpw
+  have hshape := shape_packSteps seqs
+  rw [hform] at hshape ⊢
+  have hdata : (packSteps seqs).flatten.length = (seqs.length :: rest).sum := by
+    rw [List.length_flatten, hshape]
+  obtain ⟨out, hn, x, o, hrun, hx, ho, _, _, hspec⟩ :=
+    packed_refines_spec cfg bidir L hLpos cells hcells _ seqs.length rest hpw hdata none none
+      (by simp [PermOK]) init hinit
+  have hx' : x = packSteps seqs := by
+    have := splitBy_flatten (packSteps seqs)
+    rw [hshape, hx] at this
+    exact (Option.some.inj this)
+  refine ⟨out, hn, o, hrun, ho, ?_⟩
+  intro j s s0 hj hrow
+  have hjlt : j < seqs.length := lt_of_getElem?_eq_some hj
+  obtain ⟨so, sf, h1, h2, h3⟩ := hspec j j s0 hjlt rfl hrow
+  rw [hx', seqOf_packSteps hsorted hj] at h1
+  exact ⟨so, sf, h1, h2, h3⟩
 
 /-- **padded_refines_spec**.  `forward` on a padded `[T, B, ·]` (or `[B, T, ·]`, `batch_first`) tensor,
 `T ≥ 1`, `B ≥ 1`: output has the input's layout, and for every `j` sequence `j` of the output /
@@ -122,7 +200,7 @@ theorem padded_refines_spec (cfg : Cfg V S) (bidir : Bool) (L : Nat) (hLpos : 0 
       out.map List.length = input.map List.length ∧
       hn.length = (if bidir then 2 else 1) * L ∧ (∀ h ∈ hn, h.length = B) ∧
       ∀ j s0, j < B → InitRow init j s0 →
-        ∃ so sf, specForward cfg bidir L cells s0 (padSeq batchFirst input j) = some (so, sf) ∧
+        ∃ so sf, specForward cfg id bidir L cells s0 (padSeq batchFirst input j) = some (so, sf) ∧
           padSeq batchFirst out j = so ∧ RowOf hn j sf := by
   -- the time-major view
   obtain ⟨x, hxdef, hxsh, hxseq⟩ : ∃ x, x = (if batchFirst then transpose input else input) ∧
@@ -145,7 +223,7 @@ theorem padded_refines_spec (cfg : Cfg V S) (bidir : Bool) (L : Nat) (hLpos : 0 
   obtain ⟨h0s, hh0, hh0len, hh0B, hh0row⟩ :=
     initStates_ok cfg L (if bidir then 2 else 1) B none none (by simp [PermOK]) init hinit
   obtain ⟨o, hs, hloop, hosh, hslen, hsB, hspec⟩ :=
-    layersLoop_refines cfg layerPadded B (B :: List.replicate T' B) (layerPadded_refines B T') bidir cells h0s hh0B
+    layersLoop_refines cfg id layerPadded B (B :: List.replicate T' B) (layerPadded_refines B T') bidir cells h0s hh0B
       L 0 x [] hxsh (by simpa using hcells) (by simp [hh0len])
   have hBo : (o.headD []).length = B := headD_length_of_shape hosh
   refine ⟨if batchFirst then transpose o else o, hs, ?_, ?_, ?_, hsB (by simp), ?_⟩
@@ -251,9 +329,6 @@ end Cells
 
 /-! ## non-vacuity: the hypotheses are satisfiable and the conclusions are not trivial -/
 
-/-- a toy instance over ℕ: `cell x s = x + 2·s`, outputs concatenated by addition -/
-def toyCfg : Cfg Nat Nat := ⟨id, (· + ·), 0⟩
-def toyCell (k : Nat) : Nat → Nat → Nat := fun x s => x + k * s
 
 example : PermOK 2 (some [1, 0]) (some [1, 0]) :=
   ⟨rfl, rfl, by decide, by decide, fun j hj => match j, hj with
@@ -263,14 +338,14 @@ example : PermOK 2 (some [1, 0]) (some [1, 0]) :=
 /-- two sequences `[1,3,5]` and `[2,4]` packed (`batch_sizes = [2,2,1]`), unsorted by the user,
 bidirectional, two layers, given initial states: the model's result, computed by the kernel -/
 example :
-    forwardPacked toyCfg true 2 [toyCell 2, toyCell 3, toyCell 1, toyCell 2] [1, 2, 3, 4, 5] [2, 2, 1]
+    forwardPacked toyCfg id true 2 [toyCell 2, toyCell 3, toyCell 1, toyCell 2] [1, 2, 3, 4, 5] [2, 2, 1]
       (some [1, 0]) (some [1, 0]) (some [[10, 20], [1, 2], [0, 1], [3, 0]])
       = some ([1287, 212, 765, 161, 644], [[48, 175], [23, 109], [100, 458], [167, 1136]]) := by decide
 
 /-- … and the spec on the longer sequence alone (user index 1 ↦ packed position 0, initial rows
 `init[·][1]`) gives the same outputs `[1287, 765, 644]` and the final states of column 1 -/
 example :
-    specForward toyCfg true 2 [toyCell 2, toyCell 3, toyCell 1, toyCell 2] (some [20, 2, 1, 0]) [1, 3, 5]
+    specForward toyCfg id true 2 [toyCell 2, toyCell 3, toyCell 1, toyCell 2] (some [20, 2, 1, 0]) [1, 3, 5]
       = some ([1287, 765, 644], [175, 109, 458, 1136]) := by decide
 
 example : computeSeqLengths (batchSizes [3, 2, 2, 1]) = some [3, 2, 2, 1] := by decide
